@@ -65,9 +65,11 @@ class C04(FCheck):
             ops.append(gen.d_op("dst"))
             tops = [o["p"] for o in ops if o["p"].startswith("src/") and o["p"].count("/") == 1 and o["op"] in ("file", "symlink", "node")]
             srcs = tops or ["src"]
-            for i, t in enumerate(tops):
-                if i % 2 == 0:
-                    ops.append(gen.f_op("dst/" + t.split("/", 1)[1], 50 + i, pat=r.randrange(1, 1 << 30)))
+            # exactly one collision: with several, a fault that hides one of them changes nothing
+            files = [t for t in tops if any(o["p"] == t and o["op"] == "file" for o in ops)] or tops
+            if files:
+                t = r.choice(files)
+                ops.append(gen.f_op("dst/" + t.split("/", 1)[1], 57, pat=r.randrange(1, 1 << 30)))
         inv = gen.mk_inv(srcs, "dst", driver=driver, workers=r.choice([1, 2, 4]), block_size=bs, **flags)
         kernel = {"fiemap": "emulate"} if r.random() < 0.5 else {}
         return {"setup": ops, "steps": [{"inv": inv, "ignore": {"src": []} if flags.get("gitignore") else None}], "kernel": kernel}
